@@ -35,6 +35,7 @@ fn main() {
         "insert" => exprfam::inscase,
         "tpl" => exprfam::tplcase,
         "stmt" => exprfam::stmtcase,
+        "hist" => exprfam::histcase,
         #[cfg(feature = "full")]
         "value" => valfam::valcase,
         #[cfg(feature = "full")]
